@@ -12,5 +12,9 @@ def compare(op, impl, model, rep):
             continue
         if b == {"delivered": "to-closed"} and a in ({"failed": True}, {"delivered": "to-closed"}):
             continue
+        if b == {"crashed": True} or a == {"crashed": True}:
+            if a == b:
+                continue
+            return "VIOLATES: a send wrote to a response whose handler had returned (theorem C11_no_write_after_return): implementation %r, model %r" % (a, b)
         return "outcome of an event differs: implementation %r, model %r" % (a, b)
     return None
